@@ -140,6 +140,7 @@ func main() {
 		{"InterpVisits.lean", genInterpVisits},
 		{"Signing.lean", genSigning},
 		{"Globals.lean", genGlobals},
+		{"Methods.lean", genMethods},
 	}
 	for _, g := range gens {
 		b, err := g.f(root, *repo)
